@@ -70,10 +70,7 @@ def run_shared_parameters(c):
         pb, _ = record.make_problem(b, cap=b["iters"] + 40)
         sb = Solver(pb, parameters=params)
         if c["second"] == "iter-local":
-            sb.DoGlobalIteration(7)
-            sb.DoLocalRefinement(8)
-            sb.DoGlobalIteration(5)
-            sb.Solve()
+            record.run_pattern(sb, [["iter", 7], ["local", 8], ["iter", 5], ["solve"]])
         elif c["second"] == "solve-twice":
             sb.Solve()
             sa.DoLocalRefinement(4)
